@@ -449,8 +449,8 @@ def instances(tier):
     seqs = [('g',), ('a', 'g'), ('g', 'a'), ('b',), ('a', 'c'), ('g', 'b'), ('c', 'b', 'a')]
     reqs = [mkreq('wms.map', s, box=S_OFF) for s in seqs] + [mkreq('wms.fi', s, box=S_TILE, pos=(1, 1)) for s in seqs]
     reqs += [mkreq('wms.fi', ['g'], box=S_TILE, pos=(3, 1)), mkreq('wms.caps')]
-    out.append(Instance('group', w3, reqs, ['full', 'none', 'partial'], [(True, True, False), (True, False, False)] + ([(False, True, False)] if thorough else []),
-                        ['none', 'Ghalf'] + (['Gring'] if thorough else []), ['none', 'Gtop'], ['a', 'b', 'c', 'g']))
+    out.append(Instance('group', w3, reqs, ['full', 'none', 'partial'], [(True, True, False)] + ([(True, False, False)] if thorough else []),
+                        ['none', 'Ghalf'], ['none', 'Gtop'], ['a', 'b', 'c', 'g']))
     # E4: an opaque layer on top (pruning below opaque layers precedes authorization)
     w4 = W.World({'a': 'wmsT', 'b': 'wmsO', 'c': 'cache'}, group=())
     seqs = [('a', 'b'), ('b', 'a'), ('a', 'b', 'c'), ('c', 'a', 'b'), ('b',)]
@@ -772,7 +772,6 @@ def detect_variant(ctx, apps, inst):
 def run(ctx):
     thorough = ctx.tier == 'thorough'
     tlc.sany(SPEC)
-    tlc.sany(TRACE_SPEC)
     insts = instances(ctx.tier)
     apps = Apps(ctx)
     try:
@@ -785,25 +784,27 @@ def run(ctx):
         npruned = 0
         for inst in insts:
             tables = {}
-            # (M) the repaired model satisfies the property on the whole universe
-            r = run_model(ctx, inst, True, BASE_INV + PROPERTY, 'repaired' in inst.variants, 'repaired')
-            if not r.ok:
-                raise tlc.MachineryError('Auth.tla (%s, repaired variant): %r\n%s' % (inst.name, r, r.out[-1500:]))
-            ctx.add_tlc('Auth %s (both limits applied), property checked' % inst.name, r)
             need = {a for a in ACTIONS if any(applies(a, q['f']) for q in inst.requests)}
-            vacuity_guard('Auth ' + inst.name, r, need)
             if 'repaired' in inst.variants:
+                # (M) with both limits applied the model satisfies the property on the whole universe ...
+                r = run_model(ctx, inst, True, BASE_INV + PROPERTY, True, 'repaired')
+                if not r.ok:
+                    raise tlc.MachineryError('Auth.tla (%s, repaired variant): %r\n%s' % (inst.name, r, r.out[-1500:]))
+                ctx.add_tlc('Auth %s (both limits applied), property checked' % inst.name, r)
+                vacuity_guard('Auth ' + inst.name, r, need)
                 tables['repaired'] = cases_of(r)
+                # ... the model of the code as found does not (detect_variant); its terminal states are the table for the code as found
                 rf = run_model(ctx, inst, False, BASE_INV + ['DeniedStaysDark', 'ContentInside'], True, 'found')
                 if not rf.ok:
                     raise tlc.MachineryError('Auth.tla (%s, code as found): %r\n%s' % (inst.name, rf, rf.out[-1500:]))
                 ctx.add_tlc('Auth %s (code as found), terminal states' % inst.name, rf)
                 tables['found'] = cases_of(rf)
             else:
-                rr = run_model(ctx, inst, False, BASE_INV + PROPERTY, True, 'found')
+                rr = run_model(ctx, inst, False, BASE_INV + PROPERTY, True, 'model')
                 if not rr.ok:
                     raise tlc.MachineryError('Auth.tla (%s): %r\n%s' % (inst.name, rr, rr.out[-1500:]))
-                ctx.add_tlc('Auth %s, property checked, terminal states' % inst.name, rr)
+                ctx.add_tlc('Auth %s, property checked' % inst.name, rr)
+                vacuity_guard('Auth ' + inst.name, rr, need)
                 tables['found'] = cases_of(rr)
             for t in tables.values():
                 if not t:
